@@ -59,6 +59,14 @@ func (H) Generate(prop, tier string, seed uint64) *simkit.Plan {
 	switch r.Pick(3, 3, 3) { // batching mode
 	case 0:
 		p.Scenario = "nobatch"
+		// batching is in use only when both limits are set: a section with one of
+		// them (what editing a single line of service.json gives) means direct writes
+		switch r.Pick(6, 2, 2) {
+		case 1:
+			p.SetKnob("half_size", int64(r.Range(1, 8)))
+		case 2:
+			p.SetKnob("half_age_ms", int64([]int{50, 1000}[r.Intn(2)]))
+		}
 	case 1:
 		p.Scenario = "size"
 		p.SetKnob("batch_size", int64(r.Range(1, 8)))
@@ -100,6 +108,11 @@ func (H) Generate(prop, tier string, seed uint64) *simkit.Plan {
 	}
 	faultBias := r.Float() * 0.4
 	age := int(p.Knob("batch_age_ms", 0))
+	if trust == 2 && n >= 3 && !forge && r.Chance(0.3) {
+		// first of all, with nothing else going on: a trusted replica reaches the
+		// other trusted ones only through the replica nobody trusts
+		p.AddStep(Step{Op: "relay", Peer: r.Intn(n - 1)})
+	}
 	for i := 0; i < steps; i++ {
 		st := Step{DelayMs: r.Pick(5, 3, 1) * r.Range(0, 600)}
 		if p.Scenario == "age" && r.Chance(0.3) {
@@ -365,6 +378,12 @@ func (H) Execute(t *testing.T, plan *simkit.Plan, run *simkit.Run) {
 		if plan.Scenario != "nobatch" {
 			cfg.Batching.MaxBatchSize = int(plan.Knob("batch_size", 4))
 			cfg.Batching.MaxBatchAge = time.Duration(plan.Knob("batch_age_ms", 1000)) * time.Millisecond
+		} else if hs, ha := plan.Knob("half_size", 0), plan.Knob("half_age_ms", 0); hs > 0 || ha > 0 {
+			cfg.Batching.MaxBatchSize = int(hs)
+			cfg.Batching.MaxBatchAge = time.Duration(ha) * time.Millisecond
+			if i == 0 {
+				run.Probe("batching_half_configured")
+			}
 		}
 		switch trust {
 		case 0:
@@ -533,6 +552,8 @@ func (H) Execute(t *testing.T, plan *simkit.Plan, run *simkit.Run) {
 					}
 				}
 			}
+		case "relay":
+			w.relayCheck(pi)
 		case "observe":
 			synctest.Wait()
 			w.observeLocal("mid")
@@ -728,6 +749,59 @@ func (w *world) submit(pi int, isPin bool, ci int) {
 				w.run.Violate("C02/age_limit_exceeded", w.plan.Scenario, "r%d accepted %s (%s cid%d) at %s; max_batch_age (%s) + 500ms later its own pinset still has cid%d=%q: neither this operation nor a later one on that CID has been committed (batching=%s)", pi, rec.Nonce, kind, ci, rec.At.Format("15:04:05.000"), age, ci, got, w.plan.Scenario)
 			}
 		}()
+	}
+}
+
+// relayCheck: replica a keeps its link to the last replica only, which trusts
+// everyone and is trusted by nobody, and pins. Trust is about who published an
+// update, not about who passed it on: every replica that trusts a applies it.
+func (w *world) relayCheck(a int) {
+	n := len(w.reps)
+	if n < 3 || w.plan.Knob("trust", 0) != 2 || w.plan.Knob("forge", 0) == 1 {
+		return
+	}
+	a = a % (n - 1)
+	for j := 0; j < n-1; j++ {
+		if j != a {
+			w.net.Cut(a, j)
+		}
+	}
+	defer func() {
+		w.net.Heal()
+		w.net.ConnectAll()
+	}()
+	time.Sleep(3 * time.Second)
+	w.opsMu.Lock()
+	before := len(w.ops)
+	w.opsMu.Unlock()
+	w.submit(a, true, a)
+	w.opsMu.Lock()
+	var rec *opRec
+	if len(w.ops) > before {
+		rec = w.ops[before]
+	}
+	w.opsMu.Unlock()
+	if rec == nil || !rec.Accepted {
+		return
+	}
+	wait := 2*time.Duration(w.plan.Knob("rebroadcast_ms", 5000))*time.Millisecond + 5*time.Second
+	if w.plan.Scenario != "nobatch" {
+		wait += time.Duration(w.plan.Knob("batch_age_ms", 1000)) * time.Millisecond
+	}
+	time.Sleep(wait)
+	synctest.Wait()
+	for j := 0; j < n-1; j++ {
+		if j == a {
+			continue
+		}
+		st, err := w.stateOf(w.reps[j])
+		if err != nil {
+			continue
+		}
+		w.run.Probe("trusted_update_through_untrusted_relay")
+		if st[rec.Cid] != rec.Nonce {
+			w.run.Violate(w.plan.Property+"/trusted_update_ignored", "relayed", "r%d trusts r%d, whose pin of cid%d (%s) reached it through r%d only (which r%d does not trust; r%d and r%d had no direct link): %s after it was accepted r%d holds cid%d=%q - the update was judged by who passed it on, not by who published it", j, a, rec.Cid, rec.Nonce, n-1, j, a, j, wait, j, rec.Cid, st[rec.Cid])
+		}
 	}
 }
 
